@@ -42,8 +42,8 @@ pub fn plan(prop: &str) -> Option<Plan> {
              rule_text: &'static str| Plan {
         prop,
         profiles,
-        quick_runs: 40_000,
-        thorough_runs: 600_000,
+        quick_runs: 60_000,
+        thorough_runs: 900_000,
         thorough_profiles,
         antecedents,
         level: "exploration",
@@ -80,7 +80,7 @@ pub fn plan(prop: &str) -> Option<Plan> {
         ),
         "C05" => p(
             "C05",
-            vec![("crashy", 3, false), ("overlap", 3, false), ("restart", 2, false), ("faults", 2, false)],
+            vec![("crashy", 3, false), ("overlap", 4, false), ("restart", 2, false), ("faults", 2, false)],
             vec![("reads", 1, false)],
             vec!["pay.issued"],
             "a run is non-trivial if a pay request was issued in it",
